@@ -23,6 +23,10 @@
 (*       dots -> ellipsis (or ".." after ? or !), four or more ?/! ->      *)
 (*       three, two or more commas -> one, --- -> em dash, -- -> en dash.  *)
 (* Protected code points and autolink text must be byte-identical.         *)
+(* rw: per kind of sign <<signs added by the typographer, triggers written  *)
+(* literally in the source>> (escapes and character references blanked     *)
+(* out of the source by the harness): added <= literal, a bound that does  *)
+(* not depend on how the parser tokenises escapes and entities.            *)
 (***************************************************************************)
 EXTENDS Integers, Sequences, FiniteSets, TLC, Json, IOUtils
 
@@ -89,7 +93,10 @@ CanMove == NonTextOK \/ (InText /\ i > Len(CO) /\ j > Len(CN)) \/ GSame
 
 Verdict ==
     IF Len(Tr.toks) # Tr.non THEN "token_count"
-    ELSE IF k > Len(T) THEN "ok"
+    ELSE IF k > Len(T) THEN
+         \* the walk accepted; independent source-side bound: per kind of sign, the typographer added at most as
+         \* many as there are triggers written literally (not as escapes / character references) in the source
+         (IF \E x \in DOMAIN Tr.rw : Tr.rw[x][1] > Tr.rw[x][2] THEN "more_signs_than_literal_triggers" ELSE "ok")
     ELSE IF T[k].roff # T[k].ron THEN (IF T[k].text = 1 THEN "text_token_shape_changed" ELSE "non_text_token_changed")
     ELSE IF T[k].auto = 1 THEN "autolink_text_changed"
     ELSE "text_changed_outside_documented_rewrites"
